@@ -57,7 +57,7 @@ func selfSigned() (*tls.Config, *x509.CertPool, error) {
 
 // startProxy builds the real proxy (forwarder.NewHTTPProxy) once; routing per
 // request is decided from the scenario that owns the requested host.
-func startProxy(handler bool, readTimeout time.Duration) (*proxyRig, error) {
+func startProxy(handler bool, timeouts bool) (*proxyRig, error) {
 	srvTLS, pool, err := selfSigned()
 	if err != nil {
 		return nil, err
@@ -72,8 +72,13 @@ func startProxy(handler bool, readTimeout time.Duration) (*proxyRig, error) {
 	cfg.Address = "127.0.0.1:0"
 	cfg.ProxyLocalhost = forwarder.AllowProxyLocalhost
 	cfg.TestingHTTPHandler = handler
-	// HTTPProxyConfig.ReadTimeout bounds reading a request; a tunnel is not part of the request
-	cfg.ReadTimeout = readTimeout
+	if timeouts {
+		// request/response timeouts of the configuration: none of them is about the bytes of a tunnel
+		cfg.ReadTimeout = readTimeoutMs * time.Millisecond
+		cfg.WriteTimeout = writeTimeoutMs * time.Millisecond
+		cfg.IdleTimeout = idleTimeoutMs * time.Millisecond
+		cfg.ReadHeaderTimeout = readTimeoutMs * time.Millisecond
+	}
 	cfg.UpstreamProxyFunc = func(req *http.Request) (*url.URL, error) {
 		sc := reg.get(req.URL.Host)
 		if sc == nil {
